@@ -41,7 +41,7 @@ pub fn gen_spec(g: &mut Gen, kinds: &[&str]) -> Value {
 }
 
 pub fn spec_of(v: &Value) -> Spec {
-    Spec { kind: ps(v, "kind").to_string(), n_chains: pus(v, "n_chains"), seed: pu(v, "seed"), pos_seed: pu(v, "pos_seed"), n_collect: pus(v, "n_collect"), n_discard: pus(v, "n_discard") }
+    Spec { kind: ps(v, "kind").to_string(), n_chains: pus(v, "n_chains"), seed: pu(v, "seed"), pos_seed: pu(v, "pos_seed"), n_collect: pus(v, "n_collect"), n_discard: pus(v, "n_discard"), more_calls: v.get("more_calls").and_then(|m| m.as_array()).map(|a| a.iter().map(|c| (c[0].as_u64().unwrap_or(1) as usize, c[1].as_u64().unwrap_or(0) as usize)).collect()).unwrap_or_default() }
 }
 
 pub fn shrink_spec(v: &Value) -> Vec<Value> {
@@ -101,8 +101,14 @@ impl Scenario for ReproSched {
         tier.pick(2400, 72_000)
     }
     fn generate(&self, g: &mut Gen, _tier: Tier, _idx: u64) -> Value {
-        let spec = gen_spec(g, KINDS);
+        let mut spec = gen_spec(g, KINDS);
         let nc = pus(&spec, "n_chains");
+        // 1 run in 4 is a history: one or two further run() calls on the same sampler object
+        if g.bool(1, 4) {
+            let heavy = ps(&spec, "kind").starts_with("hmc") || ps(&spec, "kind").starts_with("nuts");
+            let calls: Vec<Value> = (0..g.usize(1, 2)).map(|_| if heavy { json!([g.usize(1, 4), g.usize(0, 3)]) } else { json!([g.usize(1, 12), g.usize(0, 8)]) }).collect();
+            spec = with(&spec, "more_calls", Value::Array(calls));
+        }
         json!({"spec": spec, "real_rayon": g.bool(1, 8), "sim": gen_sim(g, nc + 1, false)})
     }
     fn execute(&self, params: &Value, want_sample: bool) -> Outcome {
@@ -111,6 +117,7 @@ impl Scenario for ReproSched {
         let fam = kind_family(&spec.kind);
         o.work = (spec.n_chains * (spec.n_collect + spec.n_discard)) as u64 * 3;
         o.count("probe_seed_near_max", (spec.seed > u64::MAX - 64) as u64);
+        o.count("probe_multi_call_history", (!spec.more_calls.is_empty()) as u64);
         // (a) sequential single-worker reference, (e) construction repeated
         let r1 = solo(&spec, Mode::Sequential);
         let r2 = solo(&spec, Mode::Sequential);
@@ -212,7 +219,7 @@ impl Scenario for ReproSched {
         out
     }
     fn rule(&self) -> &'static str {
-        "one run = (sampler kind of 10, chains, special/random seed, n_collect, n_discard) built twice sequentially, then run() under W simulated workers and a seeded schedule (1/8: real rayon pool), then a different seed; non-trivial = >= 2 context switches (single chain / HMC batch: any); distinct = hash of (schedule, events, parameters)"
+        "one run = (sampler kind of 10, chains, special/random seed, n_collect, n_discard; 1 in 4: one or two further run() calls on the same object) built twice sequentially, then run() under W simulated workers and a seeded schedule (1/8: real rayon pool), then a different seed; non-trivial = >= 2 context switches (single chain / HMC batch: any); distinct = hash of (schedule, events, parameters)"
     }
     fn components(&self) -> Value {
         json!({"real": ["MetropolisHastings", "GibbsSampler", "HMC", "NUTS", "ChainRunner::run", "NUTS::run", "burn autodiff on NdArray"], "stub": ["parallel iterator = simulated workers", "targets/proposals/conditionals written by the harness"]})
